@@ -3,6 +3,7 @@ use crate::json::J;
 use crate::obj;
 use vstd::sim::Rng;
 
+pub mod beans;
 pub mod coroutine;
 pub mod queues;
 
@@ -32,6 +33,8 @@ pub fn all() -> Vec<&'static Scenario> {
     let mut v: Vec<&'static Scenario> = Vec::new();
     v.extend(queues::SCENARIOS.iter());
     v.extend(coroutine::SCENARIOS.iter());
+    v.push(&coroutine::LOCAL_SCENARIO);
+    v.push(&beans::SCENARIO);
     v
 }
 
